@@ -602,6 +602,8 @@ def section_illposed():
         [np.diag([0.0, 1.0, 3.0, 4.0]), herm(4, False)], subspace_eigenvectors=(v[:, :2], v[:, 2:]), subspace_indices=[0, 0, 1, 1]))
     expect("custom solve_sylvester with fully_diagonalize", (NotImplementedError,), lambda: block_diagonalize(
         [np.diag([0.0, 1.0, 3.0, 4.0]), herm(4, False)], subspace_indices=[0, 0, 1, 1], solve_sylvester=lambda Y, index: Y, fully_diagonalize=(0,)))
+    expect("custom solve_sylvester with a single block (fully diagonalized by default)", (NotImplementedError,), lambda: block_diagonalize(
+        [np.diag([0.0, 1.0, 3.0, 4.0]), herm(4, False)], solve_sylvester=lambda Y, index: Y))
     # symbolic non-Hermitian input in Hermitian mode
     x = sympy.Symbol("x", real=True)
     Hs = sympy.Matrix([[0, x], [2 * x, 1]])
